@@ -269,6 +269,59 @@ def gen_sequence(rng, tier, shape="run"):
             "max_interval": rat(mi)}
 
 
+def staged_sequence(rng, tier):
+    """Work that is discovered in STAGES (Legal, totals of further scopes arrive after everything known so far has finished):
+    per section, stage by stage: totals of one or two new scopes, a rendering, their calls run and finish, a rendering while
+    everything announced is done - then the next stage.  Same format as `gen_sequence` (shape 'staged')."""
+    flavour = rng.choice(["plain", "plain", "mixed", "unorderable"])
+    sections = rng.choice([["run"], ["stale", "run"], ["run"], ["stale"]])
+    cache, scopes, ids = {}, [], {}
+
+    def scope_id(spec):
+        obj = build_scope(spec, cache)
+        if obj not in ids:
+            ids[obj] = len(scopes)
+            scopes.append(spec)
+        return ids[obj]
+
+    start = fr(rng.choice([0, 1000]))
+    t = start
+    events = []
+
+    def wake():
+        nonlocal t
+        t += rng.choice([61, 100, 400])
+        t2 = t + rng.choice([0, fr("1/8")])
+        events.append(["w", rat(t), rat(t2)])
+        t = t2
+
+    def note(op, sec, sid, amt):
+        nonlocal t
+        t += rng.choice([fr("1/8"), 1, 3])
+        events.append(["n", rat(t), op, sec, sid, amt])
+
+    for sec in sections:
+        for stage in range(rng.choice([2, 2, 3])):
+            new = []
+            for _ in range(rng.choice([1, 1, 2])):
+                sid = scope_id(gen_scope(rng, flavour))
+                amt = rng.randint(1, 2)
+                note("tot", sec, sid, amt)
+                new += [sid] * amt
+            if rng.random() < 0.8:
+                wake()
+            rng.shuffle(new)
+            for c in new:
+                note("run", sec, c, 0)
+                note("fai" if rng.random() < 0.15 else "com", sec, c, rng.randint(0, 5))
+            if rng.random() < 0.85:
+                wake()
+    t += rng.choice([1, 61])
+    final = ["w", rat(t), rat(t + rng.choice([0, fr("1/8")]))]
+    return {"shape": "staged", "flavour": flavour, "scopes": scopes, "start": rat(start), "events": events, "final": final,
+            "max_interval": rat(rng.choice([0, 10, 300]))}
+
+
 def sec_id(sec, extra):
     if sec in SECTION_IDS:
         return SECTION_IDS[sec]
@@ -397,7 +450,13 @@ class Rig:
         orig = self.obs._render
 
         def render(state, new_exception_index, exception_tuples, elapsed):
-            self.renders.append(snapshot_counts(state))
+            try:
+                snap = snapshot_counts(state)
+            except RuntimeError:
+                # the state changed under the harness's own iteration (possible only if a notification no longer takes the
+                # observer's lock): that must show in what the LIBRARY does, not in this recorder
+                snap = None
+            self.renders.append(snap)
             return orig(state, new_exception_index, exception_tuples, elapsed)
 
         self.obs._render = render
@@ -731,6 +790,96 @@ def run_threaded(kind, seq, rng):
     if not close(sumw, busy):
         return f"{kind} (threaded): sum of weighted_elapsed {sumw} != busy wall-clock {float(busy)}"
     return None
+
+
+def run_slow_output(kind, seq):
+    """The run ends WHILE an update is being written: the first output of the real update thread blocks until `__exit__` has
+    set the done event (a slow terminal, a page on a network mount).  Whatever was being written then is out of date: one more
+    rendering, made from the final counts, must follow.  Returns violation text or None ("" when no output began mid-run)."""
+    cache = {}
+    scopes = [build_scope(s, cache) for s in seq["scopes"]]
+    fake = FakeTime(0.0, tick=0.125)
+    captured = []
+    old_hook = threading.excepthook
+    threading.excepthook = lambda args: captured.append(args)
+    entered = threading.Event()
+    try:
+        with patched_clock(fake):
+            rig = Rig(kind, 1000.0, delays=(0.0005, 0.0005))
+            orig_out, first = rig.obs._output, [True]
+
+            def slow(value):
+                if first[0]:
+                    first[0] = False
+                    entered.set()
+                    rig.obs._done_event.wait(3.0)
+                return orig_out(value)
+
+            rig.obs._output = slow
+            evs = [e for e in seq["events"] if e[0] == "n"]
+            half = max(1, len(evs) // 2)
+            with rig.recording():
+                try:
+                    with rig.obs:
+                        for e in evs[:half]:
+                            rig.notify(e[2], e[3], scopes[e[4]], e[5])
+                        began = entered.wait(1.0)
+                        for e in evs[half:]:
+                            rig.notify(e[2], e[3], scopes[e[4]], e[5])
+                except Exception as exc:            # noqa: BLE001
+                    return f"{kind} (slow output): {type(exc).__name__}: {exc}"
+    finally:
+        threading.excepthook = old_hook
+    if captured:
+        a = captured[0]
+        return f"{kind}: update thread died: {a.exc_type.__name__}: {a.exc_value}"
+    if not began:
+        return ""
+    v = check_final(rig, snapshot_counts(rig.obs._state.section_scope_mapping), kind)
+    return f"{kind} (the run ended while an update was being written): {v}" if v else None
+
+
+def run_insert_storm(kind, n_scopes=300):
+    """Scopes are announced one after the other, as fast as the calling thread can, while the real update thread renders
+    continuously (no delay between updates, interpreter switch interval 10 microseconds): a rendering iterates the very
+    mappings the notifications extend.  The update thread must survive and the last rendering must show the final counts."""
+    import sys as _sys
+    fake = FakeTime(0.0, tick=0.125)
+    captured = []
+    old_hook = threading.excepthook
+    threading.excepthook = lambda args: captured.append(args)
+    old_si = _sys.getswitchinterval()
+    try:
+        _sys.setswitchinterval(1e-5)
+        with patched_clock(fake):
+            rig = Rig(kind, 1000.0, delays=(0.0, 0.0))
+            with rig.recording():
+                try:
+                    with rig.obs:
+                        # a few hundred finished scopes (so that a rendering has a long way to go through each section) ...
+                        for i in range(n_scopes):
+                            sec = "run" if i % 2 else "stale"
+                            rig.notify("tot", sec, ("storm", i), 1)
+                            rig.notify("run", sec, ("storm", i), 0)
+                            rig.notify("com", sec, ("storm", i), 0)
+                        # ... then totals of new scopes, one after the other, while renderings are under way (until ten more
+                        # renderings have been made, 20000 scopes announced or three seconds have passed)
+                        r0, t_end, i = len(rig.renders), _time.monotonic() + 3.0, n_scopes
+                        while len(rig.renders) < r0 + 10 and i < 20000 and _time.monotonic() < t_end and not captured:
+                            rig.notify("tot", "run" if i % 2 else "stale", ("storm", i), 1)
+                            i += 1
+                            if i % 4 == 0:
+                                _time.sleep(0)
+                except Exception as exc:            # noqa: BLE001
+                    return f"{kind} (insert storm): {type(exc).__name__}: {exc}"
+    finally:
+        _sys.setswitchinterval(old_si)
+        threading.excepthook = old_hook
+    if captured:
+        a = captured[0]
+        return f"{kind}: update thread died while scopes were being announced: {a.exc_type.__name__}: {a.exc_value}"
+    v = check_final(rig, snapshot_counts(rig.obs._state.section_scope_mapping), kind, structure_only=True)
+    return f"{kind} (insert storm): {v}" if v else None
 
 
 # ----------------------------------------------------------------------------------------------
@@ -1123,6 +1272,24 @@ def explore(ctx, n_scale=1.0, monitors_only=False):
                 break
         if violations or disagreements:
             break
+    # work discovered in stages (a stream of its own, so the sequences above stay what they were)
+    rng_st = random.Random(ctx.seed * 613 + 7)
+    if not violations and not disagreements:
+        for i in range(max(6, n_seq // 8)):
+            seq = staged_sequence(rng_st, ctx.tier)
+            by_shape["staged"] = by_shape.get("staged", 0) + 1
+            for kind in KINDS:
+                v, d, info = run_deterministic(kind, seq, driver)
+                events += len(seq["events"]) + 1
+                if v:
+                    violations.append(_violation(v, kind, seq, "deterministic"))
+                if d:
+                    disagreements.append({"layer": "progress-state", "what": d, "observer": kind, "seq": seq})
+                renders += info.get("renders", 0)
+                if v or d:
+                    break
+            if violations or disagreements:
+                break
     cov["samples"] = [{"events": s["events"][:6], "scopes": s["scopes"][:4], "shape": s["shape"]} for s in seqs[:2]]
     cov["programs"] = len(seqs)
     cov["sequence_shapes"] = by_shape
@@ -1142,6 +1309,25 @@ def explore(ctx, n_scale=1.0, monitors_only=False):
                 violations.append(_violation(v, kind, seq, "threaded"))
                 break
     cov["threaded_runs"] = thr
+    slow = 0
+    if not violations:
+        for i, seq in enumerate([q for q in seqs if q["shape"] == "run" and len(q["events"]) >= 4][:6 if quick else 60]):
+            kind = KINDS[i % 3]
+            v = run_slow_output(kind, seq)
+            slow += v is None
+            if v:
+                violations.append(_violation(v, kind, seq, "slow-output"))
+                break
+    cov["runs_ending_during_an_output"] = slow
+    storms = 0
+    if not violations:
+        for kind in (KINDS if quick else KINDS * 4):
+            v = run_insert_storm(kind)
+            storms += 1
+            if v:
+                violations.append({"property": "C20", "what": v, "kind": "storm", "observer": kind})
+                break
+    cov["insert_storms"] = storms
     if not violations:
         v, n_fac = public_factory_cases()
         violations += v[:2]
@@ -1167,11 +1353,19 @@ def replay(ctx, payload):
     if w.get("kind") == "sort":
         _, real = sort_case(w["items"], True)
         return "sorted_scope_items raises TypeError" if real == "raise" else None
+    if w.get("kind") == "storm":
+        for _ in range(4):
+            v = run_insert_storm(w["observer"])
+            if v:
+                return v
+        return None
     if w.get("kind") == "factory":
         v, _ = public_factory_cases(only=w["case"])
         return v[0]["what"] if v else None
     if w.get("kind") == "sequence":
         seq, kind = w["seq"], w["observer"]
+        if w.get("mode") == "slow-output":
+            return run_slow_output(kind, seq) or None
         if w.get("mode") == "threaded":
             for k in range(5):
                 v = run_threaded(kind, seq, random.Random(k))
